@@ -4,8 +4,9 @@ import itertools
 import re
 
 from harness import core, fr
-from harness.core import gz, gnat, gbool, gstr, glist
+from harness.core import gz, gnat, gbool, glist
 from harness.props import pbdag
+from harness.props.pbdag import gstr          # core.gstr, plus non-ASCII names as UTF-8 bytes
 
 HEADER = """From Coq Require Import ZArith List Bool String.
 From FrameModel Require Import PB.Expr PB.Cnf PB.Amo PB.Robdd PB.Codify PB.Sat PB.SatBool PB.Dag PB.DagPost
@@ -98,6 +99,69 @@ def gen_cofactor_pair(rng, names):
     b2 = b if rng.random() < 0.6 else b - cs[0]
     second = {"k": "ineq", "lt": lt[1:], "rt": [], "b": b2, "op": "GE", "decomp": dec, "via": "ctor"}
     return first, second
+
+
+WIDE = [15, 16, 17, 31, 32, 33, 40, 64, 65]
+
+
+def gen_wide_case(rng):
+    """Few posts over MANY variables (sizes around 16 / 32 / 64): long clauses, long at-most-one groups (pairwise and
+    chained), long inequalities with small coefficients and a bound near an extreme (narrow diagrams).  Extendability
+    is checked on the assignments near the boundary of each constraint (see wide_assignments)."""
+    nv = rng.choice(WIDE)
+    names = [f"w{i}" for i in range(nv)]
+    posts = []
+    for _ in range(rng.choice([1, 1, 2, 3])):
+        kind = rng.choice(["clause", "amoq", "amoh", "amoh", "ineq", "ineq", "ineq"])
+        n = rng.choice([nv, nv, nv - 1, max(2, nv // 2), min(nv, 33), min(nv, 17)])
+        vs = rng.sample(names, n)
+        lits = [[v, rng.random() < 0.7] for v in vs]
+        if kind == "clause":
+            posts.append({"k": "clause", "lits": lits})
+        elif kind == "amoq":
+            posts.append({"k": "amoq", "lits": lits[:rng.choice([n, min(n, 20)])]})
+        elif kind == "amoh":
+            posts.append({"k": "amoh", "kk": rng.choice([3, 3, 4, 5, 8, 16, 17, 32]), "lits": lits})
+        else:
+            lt = [[v, s, rng.choice([1, 1, 1, 2])] for v, s in lits]
+            tot = sum(c for _, _, c in lt)
+            up = rng.random() < 0.5
+            b = tot - rng.choice([0, 1, 2]) if up else rng.choice([0, 1, 2])
+            op = rng.choice(["GE", "GT"]) if up else rng.choice(["LE", "LT"])
+            posts.append({"k": "ineq", "lt": lt, "rt": [], "b": b, "op": op, "decomp": rng.random() < 0.3,
+                          "via": rng.choice(["ctor", "operator"])})
+    order = list(names)
+    rng.shuffle(order)
+    return {"kind": "wide", "history": [], "posts": [{"k": "newvar", "v": v} for v in order] + posts, "evals": []}
+
+
+def wide_assignments(case, users):
+    """All-false, all-true, every single variable flipped from either, and for every posted constraint the assignments
+    making 0 / 1 / 2 / all-but-1 / all of its literals true (plus neighbours), plus random ones."""
+    import random
+    r = random.Random(len(users) * 7919 + len(case["posts"]))
+    out = [dict.fromkeys(users, False), dict.fromkeys(users, True)]
+    for v in users:
+        out.append(dict(out[0], **{v: True}))
+        out.append(dict(out[1], **{v: False}))
+    for p in case["posts"]:
+        lits = p.get("lits") or [[v, s] for v, s, _ in p.get("lt", [])]
+        if not lits:
+            continue
+        base = {v: r.random() < 0.5 for v in users}
+        allfalse = dict(base, **{v: not s for v, s in lits})
+        alltrue = dict(base, **{v: s for v, s in lits})
+        for start, flip_to in ((allfalse, True), (alltrue, False)):
+            out.append(dict(start))
+            for _ in range(40):
+                a = dict(start)
+                for v, s in r.sample(lits, min(len(lits), r.choice([1, 1, 2, 2, 3]))):
+                    a[v] = s if flip_to else not s
+                out.append(a)
+    for _ in range(40):
+        pr = r.choice([0.05, 0.5, 0.95])
+        out.append({v: r.random() < pr for v in users})
+    return [tuple(a[v] for v in users) for a in out]
 
 
 def gen_case(rng):
@@ -277,6 +341,8 @@ def run_impl(case):
     tt = sm.ttable
     if len(users) <= MAXENUM:
         assigns = list(itertools.product([False, True], repeat=len(users)))
+    elif case.get("kind") == "wide":
+        assigns = wide_assignments(case, users)
     else:
         import random
         r = random.Random(len(sm.clauses))
@@ -402,8 +468,9 @@ def gen_dag_case(rng, big=False):
         nv = rng.choice([33, 34, 36, 40, 48, 64])
         names = [f"{PRE}v{i}" for i in range(nv)]
     else:
-        nv = rng.choice([2, 3, 3, 4, 4, 5, 6, 7, 8])
-        names = [PRE + v for v in NAMES[:nv]]
+        pool = rng.choice([NAMES] * 3 + pbdag.NAME_POOLS[3:] + [["0", "1", "7", "10", "2.5", "x"]])
+        nv = min(len(pool), rng.choice([2, 3, 3, 4, 4, 5, 6, 7, 8]))
+        names = [PRE + v for v in pool[:nv]]
     b = pbdag.Builder(rng, names)
     order = list(names)
     rng.shuffle(order)
@@ -600,7 +667,15 @@ def run_dag(case):
             try:
                 if k == "newvar":
                     assert s[1].startswith(PRE)
-                    obj = sm.newvar(s[1][len(PRE):]) if rng.random() < 0.5 else sm.newvar(s[1], "")
+                    suf, r = s[1][len(PRE):], rng.random()
+                    if r < 0.5:
+                        obj = sm.newvar(s[1], "")
+                    elif suf.isdigit() and str(int(suf)) == suf:
+                        obj = sm.newvar(int(suf))            # newvar(name: int | float | str)
+                    elif suf == "2.5":
+                        obj = sm.newvar(2.5)
+                    else:
+                        obj = sm.newvar(suf)
                 elif k == "clause":
                     sm.add_clause(dag_lits(env, s[1]))
                 elif k == "imply":
@@ -1003,7 +1078,12 @@ def run(ctx, out, replay=None):
                 "EARLIER (posted after other objects were derived from their operands; the same object may be posted "
                 "twice); all objects are compared at the end; one case in 400 does this over 33..64 variables with two "
                 "long sums compared with each other (subtrahend > 32 terms, shared variables of both polarities); "
-                "non-trivial history = an inequality posted after something else was derived from one of its ancestors")
+                "non-trivial history = an inequality posted after something else was derived from one of its ancestors. "
+                "One case in 200 is WIDE: 15..65 variables (around 16 / 32 / 64), one to three long clauses, at-most-one "
+                "groups (k up to 32) or unit-coefficient inequalities bounded near an extreme, checked on the "
+                "assignments around the boundary of each constraint.  Variable names also come from pools of names that "
+                "are prefixes of each other (x, x1, x10, x_1), look like the internal ones (aux, robdd_x, def_), are "
+                "digits (registered through newvar(int) / newvar(float)) or non-ASCII")
     cases = []
     if replay and "case" in replay:
         cases.append(fr.unjson(replay["case"]))
@@ -1011,6 +1091,7 @@ def run(ctx, out, replay=None):
     while len(cases) < n:
         k = len(cases) % 400
         cases.append(gen_dag_case(ctx.rng, big=True) if k == 11 else
+                     gen_wide_case(ctx.rng) if k % 200 == 13 else
                      gen_dag_case(ctx.rng) if k % 3 == 0 else gen_case(ctx.rng))
     stats = {"refused_posts": 0, "cases_building_nodes": 0, "cases_reusing_earlier_nodes": 0, "unsat_instances": 0,
              "max_initial_memory": 0, "max_new_nodes": 0, "nodes_codified": 0,
